@@ -22,3 +22,7 @@ def run(tier):
         "known findings (known_findings.txt): the pending queries consult only the nearest composite-style ancestor",
     ]
     return chk
+
+
+def replay(path):
+    return en.replay(path)
